@@ -199,7 +199,8 @@ pub fn run_dbfaults(job: &Value) -> JobOutput {
                 let broken = closure::closure_violations(&v);
                 c["broken_kinds"] = json!(broken.iter().map(|b| format!("{}.{}:{}", b.coll, b.link, b.why)).collect::<std::collections::BTreeSet<_>>());
                 c["broken"] = json!(broken.iter().take(3).map(|b| format!("{}.{} of {} -> {} ({})", b.coll, b.link, b.id, b.target, b.why)).collect::<Vec<_>>());
-                c["check_n"] = json!(bemodel::check(&m).len());
+                let tb_ids: std::collections::HashSet<bemodel::Uuid> = m.thermal_bridges.iter().map(|t| t.id).collect();
+                c["check_n"] = json!(bemodel::check(&m).into_iter().filter(|w| w.id.map(|i| !tb_ids.contains(&i)).unwrap_or(true)).count());
             }
         }
         cases.push(c);
@@ -356,7 +357,13 @@ pub fn run(ctx: &mut WorkerCtx, job: &Value) -> JobOutput {
                 let r = contain(|| {
                     let v = serde_json::to_value(&m).expect("model to value");
                     let broken = closure::closure_violations(&v);
-                    let warnings = bemodel::check(&m);
+                    // the checker also reports negative bridge lengths, which is not a matter of
+                    // references: only its link warnings count here
+                    let tb_ids: std::collections::HashSet<bemodel::Uuid> = m.thermal_bridges.iter().map(|t| t.id).collect();
+                    let warnings: Vec<bemodel::Warning> = bemodel::check(&m)
+                        .into_iter()
+                        .filter(|w| w.id.map(|i| !tb_ids.contains(&i)).unwrap_or(true))
+                        .collect();
                     let lost: Vec<String> = match if job["no_lost_links"] == true { None } else { baseline_links(&rel) } {
                         Some(base) => {
                             let now = optional_links(&v);
